@@ -9,6 +9,7 @@ import Dlismodel.Model.Eflr
 import Dlismodel.Model.ParseEflr
 import Dlismodel.Model.Iflr
 import Dlismodel.Model.Api
+import Dlismodel.Model.Checks
 import Dlismodel.Model.Output
 import Dlismodel.Model.Index
 import Dlismodel.Model.FrameIdx
@@ -246,6 +247,32 @@ def showWorld (w : World) : String :=
     s!"hdr={showOptInt ((w.headerOrigin.getD lf none))} K=" ++ ",".intercalate ((lfKeys w lf).map showKey) ++ " R=" ++
       ";".intercalate ((setRecords w lf).map fun (k, its) => showKey k ++ "=" ++ "+".intercalate (its.map showItem))
   s!"W{if writable w then 1 else 0} items=" ++ "+".intercalate (w.items.map showItem) ++ " # " ++ " # ".intercalate lfs
+
+/-! ### write-time object checks: `chk <n_lf> <chanK> <frameK> <fid bits> <edges> <ops…>` -/
+
+def parseEdges (s : String) : Option (List Edge) :=
+  if s == "-" then some [] else (s.splitOn ",").mapM fun (t : String) =>
+    match t.splitOn ":" with
+    | [a, b, v] => match a.toNat?, b.toNat? with
+      | some a, some b => some { holder := a, target := b, viaChannels := v == "1" }
+      | _, _ => none
+    | _ => none
+
+def showCheckErr : CheckErr → String
+  | .noOrigin => "no-origin" | .noChannels => "no-channels" | .noFrames => "no-frames"
+  | .channelNotRegistered => "channel-not-registered" | .fileIdMismatch => "file-id"
+  | .foreignReference => "foreign-reference" | .sharedSet => "shared-set"
+
+def handleChk : List String → String
+  | n :: c :: f :: fid :: es :: ops =>
+    match n.toNat?, c.toNat?, f.toNat?, parseEdges es, ops.mapM parseOp with
+    | some n, some c, some f, some es, some ops =>
+      let bits := fid.toList
+      match acceptWrite (run (World.init n) ops) c f es (fun lf => bits.getD lf '1' == '1') with
+      | .ok _ => "ok"
+      | .error e => "err " ++ showCheckErr e
+    | _, _, _, _, _ => "bad"
+  | _ => "bad"
 
 /-! ### a whole write: `wfile …` -/
 
@@ -525,6 +552,7 @@ def handle (ws : List String) : String :=
   | "dsn" :: rest => handleDsn rest
   | ["hcstr", s] => match parseCps s with
     | some s => if hcString s then "1" else "0" | none => "bad"
+  | "chk" :: rest => handleChk rest
   | "hist" :: n :: ops =>
     match n.toNat?, ops.mapM parseOp with
     | some n, some ops => "ok " ++ showWorld (run (World.init n) ops)
